@@ -18,6 +18,8 @@ pub(crate) struct SymIo;
 /// symbolic choice at every await made each step harness exceed 600 s / 14 GB (CBMC does not fold
 /// coroutine state discriminants), concrete patterns finish.
 pub(crate) static mut PEND_WRITE: bool = false;
+/// when non-zero: the write call with this ordinal (1-based) is pending once, earlier ones are ready
+pub(crate) static mut PEND_WRITE_NTH: u8 = 0;
 pub(crate) static mut PEND_FLUSH: bool = false;
 pub(crate) static mut PEND_READ: bool = false;
 
@@ -33,7 +35,7 @@ impl Write for SymIo {
             g::IO_LAST_WFIRST = if buf.is_empty() { 0 } else { buf[0] };
         }
         g::log(g::E_IO_WRITE);
-        if unsafe { PEND_WRITE } {
+        if unsafe { PEND_WRITE || (PEND_WRITE_NTH != 0 && g::IO_WRITES == PEND_WRITE_NTH) } {
             YieldOnce(false).await;
         }
         if kani::any() {
@@ -591,3 +593,8 @@ fn read_body(cap_ok: bool, pend_read: bool) {
 // @harness funcs="Connection::read_packet, fill_packet_reader with a declared length above the receive buffer"
 // @harness sym="stream bytes with remaining length 3..127, chunking" bounds="4-byte receive buffer"
 absout_harness!(c14_oversize_inbound_latches, 8, { read_body(false, false) });
+
+// F9 (disconnect() cancelled after part of DISCONNECT was accepted leaves a live handle mid-packet)
+// is decided in the projection (p_operations.rs c01_disconnect_latches: DISCONNECT goes through
+// write_all while the handle is live) together with c13_write_all_contract above (write_all's
+// progress exists only in the future).  The whole disconnect() coroutine did not finish (900 s).
